@@ -411,61 +411,65 @@ func (s *Solver) readSexp() string {
 	}
 }
 
-// parseModel parses ((|a| #x01) (|b| true) (|c| (_ bv5 8))) into m.
+// parseModel parses ((a #x01) (|b c| true) (c (_ bv5 8))) into m. Symbol
+// names may or may not be printed with bars.
 func parseModel(txt string, m map[string]uint64) {
-	i := 0
-	n := len(txt)
+	// tokenise
+	var toks []string
+	i, n := 0, len(txt)
 	for i < n {
-		// find "(|name| "
-		j := strings.Index(txt[i:], "(|")
-		if j < 0 {
-			return
-		}
-		i += j + 2
-		k := strings.IndexByte(txt[i:], '|')
-		if k < 0 {
-			return
-		}
-		name := txt[i : i+k]
-		i += k + 1
-		for i < n && txt[i] == ' ' {
-			i++
-		}
-		// value
-		rest := txt[i:]
+		c := txt[i]
 		switch {
-		case strings.HasPrefix(rest, "#x"):
-			e := 2
-			for e < len(rest) && isHex(rest[e]) {
-				e++
-			}
-			v, _ := strconv.ParseUint(rest[2:e], 16, 64)
-			m[name] = v
-			i += e
-		case strings.HasPrefix(rest, "#b"):
-			e := 2
-			for e < len(rest) && (rest[e] == '0' || rest[e] == '1') {
-				e++
-			}
-			v, _ := strconv.ParseUint(rest[2:e], 2, 64)
-			m[name] = v
-			i += e
-		case strings.HasPrefix(rest, "true"):
-			m[name] = 1
-			i += 4
-		case strings.HasPrefix(rest, "false"):
-			m[name] = 0
-			i += 5
-		case strings.HasPrefix(rest, "(_ bv"):
-			e := 5
-			for e < len(rest) && rest[e] >= '0' && rest[e] <= '9' {
-				e++
-			}
-			v, _ := strconv.ParseUint(rest[5:e], 10, 64)
-			m[name] = v
-			i += e
-		default:
+		case c == ' ' || c == '\n' || c == '\t' || c == '\r':
 			i++
+		case c == '(' || c == ')':
+			toks = append(toks, string(c))
+			i++
+		case c == '|':
+			j := strings.IndexByte(txt[i+1:], '|')
+			if j < 0 {
+				return
+			}
+			toks = append(toks, txt[i+1:i+1+j])
+			i += j + 2
+		default:
+			j := i
+			for j < n && txt[j] != ' ' && txt[j] != '(' && txt[j] != ')' && txt[j] != '\n' && txt[j] != '\t' && txt[j] != '\r' {
+				j++
+			}
+			toks = append(toks, txt[i:j])
+			i = j
+		}
+	}
+	val := func(t string) (uint64, bool) {
+		switch {
+		case strings.HasPrefix(t, "#x"):
+			v, err := strconv.ParseUint(t[2:], 16, 64)
+			return v, err == nil
+		case strings.HasPrefix(t, "#b"):
+			v, err := strconv.ParseUint(t[2:], 2, 64)
+			return v, err == nil
+		case t == "true":
+			return 1, true
+		case t == "false":
+			return 0, true
+		}
+		return 0, false
+	}
+	// pairs: "(" name value ")" where value is an atom or "( _ bvN W )"
+	for k := 0; k+3 < len(toks); k++ {
+		if toks[k] != "(" || toks[k+1] == "(" || toks[k+1] == ")" {
+			continue
+		}
+		name := toks[k+1]
+		if v, ok := val(toks[k+2]); ok && toks[k+3] == ")" {
+			m[name] = v
+			continue
+		}
+		if toks[k+2] == "(" && k+6 < len(toks) && toks[k+3] == "_" && strings.HasPrefix(toks[k+4], "bv") {
+			if v, err := strconv.ParseUint(toks[k+4][2:], 10, 64); err == nil {
+				m[name] = v
+			}
 		}
 	}
 }
@@ -574,27 +578,25 @@ func OneShot(ctx context.Context, be *Backend, script string, cap time.Duration,
 	out, _ := cmd.CombinedOutput()
 	txt := string(out)
 	r := Unknown
-	if strings.Contains(txt, "(error") {
-		stats.mu.Lock()
-		if len(stats.Errors) < 20 {
-			e := txt
-			if len(e) > 300 {
-				e = e[:300]
-			}
-			stats.Errors = append(stats.Errors, be.Name+": "+e)
+	// the verdict is the first sat/unsat line; an (error before it poisons
+	// the answer, an (error after it (get-value after unsat) is irrelevant
+	for _, line := range strings.Split(txt, "\n") {
+		line = strings.TrimSpace(line)
+		if line == "sat" {
+			r = Sat
+			break
 		}
-		stats.mu.Unlock()
-	} else {
-		for _, line := range strings.Split(txt, "\n") {
-			line = strings.TrimSpace(line)
-			if line == "sat" {
-				r = Sat
-				break
+		if line == "unsat" {
+			r = Unsat
+			break
+		}
+		if strings.HasPrefix(line, "(error") {
+			stats.mu.Lock()
+			if len(stats.Errors) < 20 {
+				stats.Errors = append(stats.Errors, be.Name+": "+line)
 			}
-			if line == "unsat" {
-				r = Unsat
-				break
-			}
+			stats.mu.Unlock()
+			break
 		}
 	}
 	stats.add(kind, r, be.Name, time.Since(t0))
